@@ -16,11 +16,12 @@
              mon_noreexec_diag ;
              mon_converges_diag under no flag ;
              flags the monitor needs ;
-             mon_converges_diag under the flags [known] ]
+             mon_converges_diag under the flags [known] ;
+             [0] | [1] the crash image (plan Running) is not well-formed: ImgWf.img_wf ]
    rcase_ok known c : what the kernel-checked lemma of every shard states. *)
 From Coercion.Base Require Import Plan.
 From Coercion.Engine Require Import Shape Event Action ChecksRun Seq Block Final PlanSM Auto Accept.
-From Coercion.Resume Require Import Resume MonRecover.
+From Coercion.Resume Require Import Resume MonRecover ImgWf.
 
 Inductive rcase :=
 | CRun (sh : shape) (tr : list event) (snaps : list image)
@@ -86,7 +87,9 @@ Definition check_rec (known : devs) (sh : shape) (I : image) (tr : list event) (
     mon_converges_diag dev_none sh I tr verdict determined;
     if mon_converges dev_all sh I tr verdict determined
     then needed (fun d => mon_converges d sh I tr verdict determined) else [];
-    mon_converges_diag known sh I tr verdict determined ].
+    mon_converges_diag known sh I tr verdict determined;
+    (* the crash image of a plan that is resumed is well-formed (premise of the C09 theorem) *)
+    if negb (status_eqb (cst I OPlan) Running) || img_wf sh (dimg_of_image I) then [0] else [1] ].
 
 Definition check_rcase (known : devs) (c : rcase) : list (list nat) :=
   match c with
